@@ -8,3 +8,5 @@ import Dtr.Props.C17
 #print axioms Dtr.C17_reset_stmt
 #print axioms Dtr.C17_as_literal
 #print axioms Dtr.C17_as_if_literals
+#print axioms Dtr.C17_failed_eval_history
+#print axioms Dtr.C17_empty_range_no_draw
